@@ -204,6 +204,27 @@ func (sc *collection) doBuild(ctx context.Context) (Provider, error) {
 		}
 	}
 
+	// A group dependency points at the node {Type, nil, Group}; connect that node to
+	// every member of the group so that cycles through groups are detected and
+	// members are created before their consumers.
+	for groupKey, members := range sc.groups {
+		deps := make([]*reflection.Dependency, 0, len(members))
+		for _, member := range members {
+			if member != nil {
+				deps = append(deps, &reflection.Dependency{Type: member.Type, Key: member.Key, Group: member.Group})
+			}
+		}
+
+		groupNode := &Descriptor{Type: groupKey.Type, Group: groupKey.Group, Lifetime: Transient, Dependencies: deps}
+		if err := g.AddProviderDeferred(groupNode); err != nil {
+			return nil, &BuildError{
+				Phase:   "graph",
+				Details: fmt.Sprintf("failed to add group %q of %v", groupKey.Group, formatType(groupKey.Type)),
+				Cause:   err,
+			}
+		}
+	}
+
 	// Phase 2: Validate graph (cycles detected here, not per-add)
 	if err := g.DetectCycles(); err != nil {
 		return nil, &BuildError{
